@@ -160,6 +160,21 @@ CLAIMED = {
             'Parameter kinds read from the documented signatures '
             '(vf/props/c17.py: kind_of); fingerprints of vf/fingerprint.py.',
             'DESIGN.md section 5, C17'),
+    'C06': ('exploration',
+            'Hypothesis round-trip tests pixel->sky->pixel and sky->pixel->sky '
+            'over a generated WCS family, with key-by-key meta/visual '
+            'comparison, plus a differential test of sky membership against '
+            'the pixel image',
+            'Random search over all region classes incl. compounds x '
+            'TAN/SIN/CAR x any rotation x both parities x 0.01"..0.1 deg/px x '
+            'ICRS/FK5/FK4/Galactic, regions within 300 px of CRPIX. Sky '
+            'parameters are compared only for components expressed in the '
+            'WCS\'s own frame (otherwise the pixel images decide). Orientation '
+            'errors that cancel in a round trip are C07\'s business.',
+            'astropy.wcs / astropy.coordinates for the transformations; '
+            'tolerances 1e-6 relative as stated by the property (measured '
+            'head-room: three decades).',
+            'DESIGN.md section 5, C06'),
 }
 
 PENDING_REASON = ('check designed (DESIGN.md section 5) but not yet built and '
